@@ -55,7 +55,7 @@ OPAQUE = [
     r"^std::boxed::box_new_uninit$|^std::boxed::box_assume_init_into_vec_unsafe",
     r"^<Ident as (std::fmt::)?Display>::fmt$",
     # a node that reads the variable store directly (instead of resolving a child) gets an arbitrary answer
-    r"^(state::)?RuntimeState::variable$", r"^context::Context::<'_>::state$", r"^(variable::)?Variable::ident$",
+    r"^(state::)?RuntimeState::variable(_mut)?$", r"^context::Context::<'_>::state(_mut)?$", r"^(variable::)?Variable::ident$",
 ]
 
 
@@ -663,6 +663,30 @@ def target_insert_semantics(run, S):
 
 # ----------------------------------------------------------------------------- everything together
 
+def return_semantics(run):
+    """`return e`: e is evaluated exactly once through its own `resolve`, and its value -- nothing else -- is what
+    the Return outcome carries (in a closure the statement runs once per iteration: it must not consume anything)"""
+    obls = []
+    ex = run.ex
+    for pi, p in enumerate(run.paths):
+        if p.outcome.kind != "ret":
+            continue
+        v = V(ex, p.st)
+        evs = [e for e in p.st.trace if e["kind"] == "resolve"]
+        r = p.outcome.value
+        if len(evs) != 1:
+            post = z3.BoolVal(False)
+            detail = {"problem": f"the returned expression was resolved {len(evs)} time(s)"}
+        else:
+            cr = evs[0]["result"]
+            e_ = v.field(r, "Err", 0, EE)
+            post = z3.Implies(is_ok(v, cr), z3.And(v.is_variant(r, "Err", RES), v.is_variant(e_, "Return", EE),
+                                                   v.same(v.field(e_, "Return", 1, VAL), v.field(cr, "Ok", 0, VAL))))
+            detail = {"result": ex.val_name(p.st, r)[:160]}
+        obls.append(Obl("C06:Return:carries-the-value-of-its-expression", {"C06"}, f"C06:Return:carries-the-value-of-its-expression#path{pi}", p, post, detail))
+    return obls
+
+
 def all_obligations(S, bounds):
     """returns (obligations, fn_records, stats); every obligation carries its executor in .ex"""
     obls, fns, stats = [], [], {}
@@ -679,6 +703,8 @@ def all_obligations(S, bounds):
             take(run, op_semantics(run, desc))
         if tag == "IfStatement":
             take(run, if_semantics(run))
+        if tag == "Return":
+            take(run, return_semantics(run))
         if tag == "AssignVariant":
             take(run, assign_semantics(run, desc, S))
         stats[tag] = {"paths": len(run.paths), **{k: v for k, v in run.ex.stats.items() if k in ("solver_calls", "forks", "oracle_calls")}}
